@@ -322,14 +322,8 @@ def refusal_cases(rng):
 def cases(rng, tier):
     yield dict(kind="table", sub=rng.getrandbits(32))
     yield from refusal_cases(rng)
-    # the three candidate findings, one deterministic witness each (also reached by the random stream)
-    base = dict(regime="exact", mesh=dict(p1=[0.0, 0.0], p2=[4.0, 6.0], n=[2, 3], dims=None, units=None), nvdim=1, labels=None, vmap=None,
-                density=0.7, mult=None, filter=None, aux=None, vdims_arg=None, use_color=True, clim=None, ax="rec", colorbar=False,
-                colorwheel=False, path="direct")
-    yield dict(base, kind="scalar", filter=dict(n=[2, 3], bad=None, zd=0.0, kind="filter"), sub=11)
-    yield dict(base, kind="lightness", aux="self", density=1.0, sub=12)
-    yield dict(base, kind="lightness", mesh=dict(base["mesh"], n=[1, 3]), density=1.0, sub=13)
-    n = 2200 if tier == "quick" else 20000
+    # (the three candidate findings D21-D23 have one deterministic witness each in harness/corpus/C20, run first)
+    n = 1800 if tier == "quick" else 20000
     for _ in range(n):
         yield gen_case(rng, tier)
 
@@ -447,7 +441,11 @@ def read_axes(ax):
             a = im.get_array()
             mask = np.ma.getmaskarray(a)
             data = np.ma.getdata(a).astype(float)
-            out["images"].append(dict(shape=list(data.shape), data=data, mask=mask, extent=[float(x) for x in im.get_extent()], origin=im.origin))
+            origin = im.origin
+            if origin == "upper":  # same picture as the row-flipped image with origin="lower" (imshow contract): canonicalise
+                data, mask, origin = data[::-1], mask[::-1], "lower"
+            out["images"].append(dict(shape=list(data.shape), data=data, mask=mask, extent=[float(x) for x in im.get_extent()], origin=origin,
+                                      origin_raw=im.origin))
         elif isinstance(im, Quiver):
             c = im.get_array()
             out["quivers"].append(dict(X=np.asarray(im.X, dtype=float), Y=np.asarray(im.Y, dtype=float), U=np.asarray(im.U, dtype=float),
